@@ -1,4 +1,5 @@
 import LeptosModel.Proofs.KeyedExtras
+import LeptosModel.Proofs.KeyedBuild
 /-!
 # The life cycle of a keyed list: built (no parent) → rebuilt → mounted before a sibling → updated →
 unmounted → rebuilt → mounted again (C11, lifted assumption "the list is mounted when it is rebuilt")
@@ -354,7 +355,7 @@ theorem rebuildWith_detached (D : List Key → List Key → Diff) (hD : DiffLike
     · obtain ⟨it, hit, hkey, _⟩ := hsum.at_ j to[j] (List.getElem?_eq_getElem hj)
       rw [hit, List.getElem?_eq_getElem hj]; simp [hkey]
     · rw [List.getElem?_eq_none (by rw [hsum.len]; omega), List.getElem?_eq_none (by omega)]; rfl
-  have hLnd : (somes (rebuildWith D s to).w.storage).Nodup := nodup_of_nodup_map (·.key) (hkeys ▸ hto)
+  have hLnd : (somes (rebuildWith D s to).w.storage).Nodup := nodup_of_nodup_map (·.key) (by rw [hkeys]; exact hto)
   have hold_lt : ∀ x ∈ somes s.w.storage, ∀ n ∈ x.nodes, n < s.w.next :=
     fun x hx n hn => hd.blocks_fresh n (mem_blocks.mpr ⟨x, hx, hn⟩)
   have hnodes_nodup : ∀ x ∈ somes (rebuildWith D s to).w.storage, x.nodes.Nodup := by
@@ -396,5 +397,228 @@ theorem rebuildWith_detached (D : List Key → List Key → Diff) (hD : DiffLike
     rcases hitems x hx with h | h
     · exact Nat.lt_of_lt_of_le (hold_lt x h n hnx) hnext
     · exact ((hP x h).2.2 n hnx).2
+
+/-! ### build, mount before an existing sibling, unmount -/
+
+/-- `Keyed::build`: a well-formed list that is not in the DOM and has no parent yet -/
+theorem build_detached (bs : Nat) (keys : List Key) (kids : List NodeId) (next : Nat) (hbs : 0 < bs)
+    (hk : keys.Nodup) (hkids : kids.Nodup) (hfr : ∀ n ∈ kids, n < next) :
+    Wf (build bs keys kids next) ∧ Detached (build bs keys kids next) ∧
+    (build bs keys kids next).parent = false ∧ (build bs keys kids next).w.kids = kids := by
+  obtain ⟨h1, h2, h3⟩ := buildLoop_eq bs keys 0 { kids := kids, storage := [], next := next }
+  simp only [List.nil_append] at h1 h2 h3
+  have hst : (build bs keys kids next).w.storage = (itemsOf bs keys next).map some := h1
+  have hkd : (build bs keys kids next).w.kids = kids := h3
+  have hnx : (build bs keys kids next).w.next = next + bs * keys.length + 1 := by
+    show (buildLoop bs keys 0 { kids := kids, storage := [], next := next }).next + 1 = _
+    rw [h2]
+  have hmk : (build bs keys kids next).marker = next + bs * keys.length := h2
+  have hblocks := blocks_itemsOf bs keys next
+  have hlt : ∀ n ∈ List.range' next (bs * keys.length), next ≤ n ∧ n < next + bs * keys.length := by
+    intro n hn; simpa [List.mem_range'_1] using hn
+  have hne : ∀ (keys : List Key) (next : Nat), ∀ z ∈ itemsOf bs keys next, z.nodes ≠ [] := by
+    intro keys
+    induction keys with
+    | nil => intro _ z hz; simp [itemsOf] at hz
+    | cons k ks ih =>
+      intro next z hz
+      simp only [itemsOf, List.mem_cons] at hz
+      rcases hz with rfl | hz
+      · intro h
+        have := congrArg List.length h
+        simp at this; omega
+      · exact ih _ z hz
+  refine ⟨⟨by rw [hst, somes_map_some], by rw [hst, somes_map_some]; exact itemsOf_keys bs keys next, hk⟩,
+    ⟨by rw [hkd]; exact hkids, ?_, ?_, ?_, ?_, ?_, ?_, ?_, ?_, hbs⟩, rfl, hkd⟩
+  · rw [hst, somes_map_some, hblocks]; exact List.nodup_range' ..
+  · intro n hn
+    rw [hst, somes_map_some, hblocks] at hn
+    rw [hkd]
+    intro hk'
+    exact absurd (hfr n hk') (Nat.not_lt.mpr (hlt n hn).1)
+  · rw [hkd, hmk]
+    intro hm
+    exact absurd (hfr _ hm) (Nat.not_lt.mpr (Nat.le_add_right _ _))
+  · rw [hst, somes_map_some, hblocks, hmk]
+    intro hm
+    exact absurd (hlt _ hm).2 (Nat.lt_irrefl _)
+  · rw [hst, somes_map_some]; exact hne keys next
+  · intro n hn
+    rw [hkd] at hn
+    rw [hnx]
+    exact Nat.lt_of_lt_of_le (hfr n hn) (by omega)
+  · intro n hn
+    rw [hst, somes_map_some, hblocks] at hn
+    rw [hnx]
+    exact Nat.lt_of_lt_of_le (hlt n hn).2 (by omega)
+  · rw [hmk, hnx]; exact Nat.lt_succ_self _
+
+/-- mounting a sequence of fresh blocks in front of `a`: they stand, in order, directly before `a` -/
+theorem mount_all_before (a : NodeId) : ∀ (items : List Item) (A B : List NodeId),
+    (A ++ a :: B).Nodup → (blocks items).Nodup → (∀ n ∈ blocks items, n ∉ A ++ a :: B) →
+    items.foldl (fun ks it => mountItem ks it (some a)) (A ++ a :: B) = A ++ blocks items ++ a :: B
+  | [], A, B, _, _, _ => by simp
+  | it :: items, A, B, hnd, hb, hd => by
+    rw [blocks_cons, List.nodup_append] at hb
+    have hdit : ∀ n ∈ it.nodes, n ∉ A ++ a :: B := fun n hn => hd n (by simp [hn])
+    have hstep : mountItem (A ++ a :: B) it (some a) = (A ++ it.nodes) ++ a :: B := by
+      unfold mountItem
+      rw [mount_block a A B it.nodes (A ++ a :: B) hnd hb.1 (by
+        intro ha; exact hdit a ha (by simp)) (filter_not_contains_of_disjoint (fun x hx hxi => hdit x hxi hx))]
+    rw [List.foldl_cons, hstep]
+    have hnd' : ((A ++ it.nodes) ++ a :: B).Nodup := by
+      rw [← hstep]; exact nodup_mountItem it _ hnd
+    rw [mount_all_before a items (A ++ it.nodes) B hnd' hb.2.1 (by
+      intro n hn hmem
+      simp only [List.mem_append, List.mem_cons] at hmem
+      rcases hmem with (h | h) | h | h
+      · exact hd n (by simp [hn]) (by simp [h])
+      · exact hb.2.2 n h n hn rfl
+      · exact hd n (by simp [hn]) (by simp [h])
+      · exact hd n (by simp [hn]) (by simp [h]))]
+    simp
+
+theorem nodup_mount_fold (ref : Option NodeId) : ∀ (items : List Item) (ks : List NodeId), ks.Nodup →
+    (items.foldl (fun ks it => mountItem ks it ref) ks).Nodup
+  | [], _, h => h
+  | it :: items, _, h => nodup_mount_fold ref items _ (nodup_mountItem it ref h)
+
+/-- **`mount(parent, anchor)` of a list that is not in the DOM**: for siblings `pre ++ post` and the anchor
+`post.head?` (`None` = append), the list is `Mounted pre post` afterwards (and has a parent) -/
+theorem mount_mounted (s : KState) (pre post : List NodeId) (hs : Wf s) (hd : Detached s)
+    (hk : s.w.kids = pre ++ post) :
+    Wf (s.mount post.head?) ∧ Mounted pre post (s.mount post.head?) := by
+  have hst : (s.mount post.head?).w.storage = s.w.storage := rfl
+  have hbd : ∀ n ∈ blocks (somes s.w.storage), n ∉ s.w.kids := hd.disjoint
+  have hkids : (s.mount post.head?).w.kids
+      = pre ++ blocks (somes s.w.storage) ++ s.marker :: post := by
+    cases post with
+    | nil =>
+      simp only [List.head?_nil, KState.mount]
+      show insertBefore (List.foldl (fun ks it => mountItem ks it none) s.w.kids (somes s.w.storage)) s.marker none = _
+      rw [mount_all_fresh _ _ hd.blocks_nodup hbd]
+      simp only [insertBefore]
+      rw [List.erase_of_not_mem (by
+        intro hm
+        simp only [List.mem_append] at hm
+        rcases hm with hm | hm
+        · exact hd.marker_out hm
+        · exact hd.marker_not_item hm), hk]
+      simp
+    | cons a post' =>
+      simp only [List.head?_cons, KState.mount]
+      show insertBefore (List.foldl (fun ks it => mountItem ks it (some a)) s.w.kids (somes s.w.storage))
+        s.marker (some a) = _
+      rw [hk, mount_all_before a _ pre post' (hk ▸ hd.nodup) hd.blocks_nodup (hk ▸ hbd)]
+      have ha : a ∈ pre ++ blocks (somes s.w.storage) ++ a :: post' := by simp
+      rw [insertBefore_of_mem ha]
+      have hmo : s.marker ∉ pre ++ blocks (somes s.w.storage) ++ a :: post' := by
+        intro hm
+        simp only [List.mem_append, List.mem_cons] at hm
+        rcases hm with (h | h) | h | h
+        · exact hd.marker_out (by rw [hk]; simp [h])
+        · exact hd.marker_not_item h
+        · exact hd.marker_out (by rw [hk]; simp [h])
+        · exact hd.marker_out (by rw [hk]; simp [h])
+      rw [List.erase_of_not_mem hmo]
+      have hnd0 : (pre ++ a :: post').Nodup := hk ▸ hd.nodup
+      have hapre : a ∉ pre ++ blocks (somes s.w.storage) := by
+        intro hm
+        simp only [List.mem_append] at hm
+        rcases hm with h | h
+        · exact (List.nodup_append.mp hnd0).2.2 a h a (by simp) rfl
+        · exact hbd a h (by rw [hk]; simp)
+      have := insB_append_of_not_mem (x := s.marker) post' hapre
+      simpa [List.append_assoc] using this
+  have hnd : (s.mount post.head?).w.kids.Nodup := by
+    show (insertBefore _ _ _).Nodup
+    exact nodup_insertBefore _ _ (nodup_mount_fold _ _ _ hd.nodup)
+  refine ⟨⟨hs.all_some, hs.keys, hs.nodup⟩, ⟨hkids, hnd, hd.nonempty, ?_, hd.bs_pos, rfl⟩⟩
+  intro n hn
+  rw [hkids] at hn
+  simp only [List.mem_append, List.mem_cons] at hn
+  rcases hn with (h | h) | h | h
+  · exact hd.fresh n (by rw [hk]; simp [h])
+  · exact hd.blocks_fresh n h
+  · rw [h]; exact hd.marker_fresh
+  · exact hd.fresh n (by rw [hk]; simp [h])
+
+theorem foldl_world_unmount : ∀ (l : List Item) (w : World), l.foldl World.unmount w =
+    { w with kids := l.foldl unmountItem w.kids,
+             log := { w.log with unmounts := w.log.unmounts ++ l.map (·.key) } }
+  | [], w => by simp
+  | a :: l, w => by simp [foldl_world_unmount l, World.unmount]
+
+/-- **`unmount`**: the list leaves the DOM — the parent's children are the siblings alone — and stays
+well-formed (`Detached`); its storage is untouched (it still remembers its parent) -/
+theorem unmount_detached (s : KState) (pre post : List NodeId) (hs : Wf s) (hm : Mounted pre post s) :
+    Wf s.unmount ∧ Detached s.unmount ∧ s.unmount.w.kids = pre ++ post ∧
+    s.unmount.w.storage = s.w.storage ∧ s.unmount.parent = s.parent := by
+  have hk : s.w.kids = pre ++ blocks (somes s.w.storage) ++ s.marker :: post := hm.ordered
+  have hkn : (pre ++ blocks (somes s.w.storage) ++ s.marker :: post).Nodup := hk ▸ hm.nodup
+  have h1 := List.nodup_append.mp hkn
+  have h2 := List.nodup_append.mp h1.1
+  have hold : (somes s.w.storage).Nodup := nodup_of_blocks_nodup h2.2.1 hm.nonempty
+  have hst : s.unmount.w.storage = s.w.storage := by
+    simp [KState.unmount, foldl_world_unmount, somes]
+  have hnx : s.unmount.w.next = s.w.next := by
+    simp [KState.unmount, foldl_world_unmount]
+  have hmarker : s.unmount.marker = s.marker := rfl
+  have hkids : s.unmount.w.kids = pre ++ post := by
+    have : s.unmount.w.kids = ((somes s.w.storage).foldl unmountItem s.w.kids).erase s.marker := by
+      simp [KState.unmount, foldl_world_unmount, somes, removeNode]
+    rw [this, hk, unmount_fold_region pre post s.marker _ _ hkn hm.nonempty hold (fun x hx => hx),
+      foldl_erase_all]
+    simp only [blocks_nil, List.append_nil]
+    have hmp : s.marker ∉ pre := by
+      intro h
+      exact h1.2.2 s.marker (by simp [h]) s.marker (by simp) rfl
+    rw [List.erase_append_right _ hmp]
+    simp
+  have hsub : ∀ n ∈ pre ++ post, n ∈ s.w.kids := by
+    intro n hn
+    rw [hk]
+    simp only [List.mem_append, List.mem_cons] at hn ⊢
+    rcases hn with h | h
+    · exact Or.inl (Or.inl h)
+    · exact Or.inr (Or.inr h)
+  have hblk_in : ∀ n ∈ blocks (somes s.w.storage), n ∈ s.w.kids := by
+    intro n hn; rw [hk]; simp [hn]
+  refine ⟨⟨by rw [hst]; exact hs.all_some, by rw [hst]; exact hs.keys, hs.nodup⟩, ⟨?_, ?_, ?_, ?_, ?_, ?_, ?_, ?_, ?_, hm.bs_pos⟩,
+    hkids, hst, rfl⟩
+  · rw [hkids, List.nodup_append]
+    refine ⟨h2.1, (List.nodup_cons.mp h1.2.1).2, ?_⟩
+    intro a ha b hb hab
+    exact h1.2.2 a (by simp [ha]) b (by simp [hb]) hab
+  · rw [hst]; exact h2.2.1
+  · intro n hn
+    rw [hst] at hn
+    rw [hkids]
+    intro hmem
+    simp only [List.mem_append] at hmem
+    rcases hmem with h | h
+    · exact h2.2.2 n h n hn rfl
+    · exact h1.2.2 n (by simp [hn]) n (by simp [h]) rfl
+  · rw [hkids, hmarker]
+    intro hmem
+    simp only [List.mem_append] at hmem
+    rcases hmem with h | h
+    · exact h1.2.2 s.marker (by simp [h]) s.marker (by simp) rfl
+    · have := (List.nodup_cons.mp h1.2.1).1
+      exact this h
+  · rw [hst, hmarker]
+    intro hmem
+    exact h1.2.2 s.marker (by simp [hmem]) s.marker (by simp) rfl
+  · rw [hst]; exact hm.nonempty
+  · intro n hn
+    rw [hkids] at hn
+    rw [hnx]
+    exact hm.fresh n (hsub n hn)
+  · intro n hn
+    rw [hst] at hn
+    rw [hnx]
+    exact hm.fresh n (hblk_in n hn)
+  · rw [hnx, hmarker]
+    exact hm.fresh s.marker (by rw [hk]; simp)
 
 end Leptos.Keyed
